@@ -406,7 +406,7 @@ class Inliner:
                 prefix.append(_loc(ast.Assign(targets=[ast.Name(id=p, ctx=ast.Store())], value=copy.deepcopy(v)), call))
         return prefix, mapping
 
-    def _body_of(self, callee, call, recv, kind):
+    def _body_of(self, callee, call, recv, kind, keep_names=()):
         if callee.name in self.stack or len(self.stack) >= 3:
             return None
         if any(isinstance(x, (ast.Yield, ast.YieldFrom, ast.Nonlocal)) for s in callee.body for x in ast.walk(s)) and kind != "closure":
@@ -435,7 +435,21 @@ class Inliner:
         if root is not None and own:
             caller_names = {x.id for x in ast.walk(root) if isinstance(x, ast.Name)} | {a_.arg for a_ in ast.walk(root) if isinstance(a_, ast.arg)}
             # the prefix values are caller expressions: evaluate them before renaming can touch them
-            clash = {n_ for n_ in own if n_ in caller_names}
+            # a name the call's result is assigned to is overwritten by the call anyway: the callee may use it as its own
+            clash = {n_ for n_ in own if n_ in caller_names and n_ not in keep_names}
+
+            def sole_binding(tree_stmts, name):
+                b_ = [x for s_ in tree_stmts for x in ast.walk(s_) if isinstance(x, (ast.Assign, ast.AnnAssign, ast.AugAssign, ast.For, ast.With, ast.NamedExpr))
+                      and any(isinstance(t_, ast.Name) and t_.id == name and isinstance(t_.ctx, ast.Store) for t_ in ast.walk(x) if not isinstance(t_, ast.Load))]
+                if len(b_) == 1 and isinstance(b_[0], ast.Assign) and len(b_[0].targets) == 1 and isinstance(b_[0].targets[0], ast.Name):
+                    return ast.unparse(b_[0].value)
+                return None
+            # re-executing the caller's own (sole) definition of a name is harmless: `image = self._image` in both
+            same_def = {n_ for n_ in clash if sole_binding(body, n_) is not None and sole_binding(root.body, n_) == sole_binding(body, n_)}
+            clash -= same_def
+            if same_def:
+                # ... and redundant: the callee's copy of the definition is dropped
+                body = [s_ for s_ in body if not (isinstance(s_, ast.Assign) and len(s_.targets) == 1 and isinstance(s_.targets[0], ast.Name) and s_.targets[0].id in same_def)] or [ast.Pass()]
             if clash:
                 Inliner._fresh = getattr(Inliner, "_fresh", 0) + 1
                 ren = {n_: f"{n_}__i{Inliner._fresh}" for n_ in clash}
@@ -546,7 +560,8 @@ class Inliner:
         if c is None:
             return None
         callee, recv, kind = c
-        body = self._body_of(callee, call, recv, kind)
+        keep_names = {x.id for t_ in s.targets for x in ast.walk(t_) if isinstance(x, ast.Name)} if mode == "assign" else set()
+        body = self._body_of(callee, call, recv, kind, keep_names)
         if body is None:
             return None
         rets = _returns(body)
